@@ -87,13 +87,19 @@ def _alarm_handler(signum, frame):
 
 @contextlib.contextmanager
 def watchdog(seconds):
-    old = signal.signal(signal.SIGALRM, _alarm_handler)
-    signal.setitimer(signal.ITIMER_REAL, seconds)
+    """Per-case watchdog: `seconds` of CPU time of this process (robust against machine load), plus a wall
+    clock limit of 8x that for time spent waiting on sub-processes (dsharp, maxsatz)."""
+    old_alrm = signal.signal(signal.SIGALRM, _alarm_handler)
+    old_prof = signal.signal(signal.SIGPROF, _alarm_handler)
+    signal.setitimer(signal.ITIMER_PROF, seconds)
+    signal.setitimer(signal.ITIMER_REAL, seconds * 8)
     try:
         yield
     finally:
+        signal.setitimer(signal.ITIMER_PROF, 0)
         signal.setitimer(signal.ITIMER_REAL, 0)
-        signal.signal(signal.SIGALRM, old)
+        signal.signal(signal.SIGALRM, old_alrm)
+        signal.signal(signal.SIGPROF, old_prof)
 
 
 @contextlib.contextmanager
